@@ -159,7 +159,7 @@ impl Property for C11 {
         ]
     }
     fn cases(tier: Tier) -> u64 {
-        tier.pick(20_000, 1_000_000)
+        tier.pick(40_000, 1_000_000)
     }
     fn strategy(_tier: Tier) -> BoxedStrategy<Spec> {
         (doc_strategy(false), prop_oneof![8 => ed_key(), 1 => any_key()]).prop_map(|(doc, key)| Spec { doc, key }).boxed()
@@ -291,6 +291,6 @@ impl Property for C11 {
         Ok(())
     }
     fn nontrivial_floor() -> f64 {
-        0.6
+        0.4
     }
 }
